@@ -113,6 +113,7 @@ func hostBitsFamily(emit func(string, ...any)) {
 
 func gen(r *hlib.Rand, n int, tier, profile string, emit func(string, ...any)) {
 	hostBitsFamily(emit)
+	reloadWitnesses(emit)
 	if tier == "thorough" {
 		// every mask length of both families against fixed bit patterns
 		for _, v6 := range []bool{false, true} {
@@ -133,6 +134,13 @@ func gen(r *hlib.Rand, n int, tier, profile string, emit func(string, ...any)) {
 		}
 	}
 	for i := 0; i < n; i++ {
+		if r.Chance(1, 8) {
+			// a history of configuration loads/reloads and probes (reload_test.go); about as many op lines as the
+			// stateless cases around it
+			genHistory(r, emit)
+			i += 6
+			continue
+		}
 		switch r.Intn(10) {
 		case 0, 1:
 			cv6, mv6 := r.Bool(), r.Bool()
@@ -233,8 +241,11 @@ func join(l []string) string {
 }
 
 func newExec(t *testing.T) func([]string) string {
+	rs := &reloadState{}
 	return func(a []string) string {
 		switch a[0] {
+		case "reset", "cfgload", "cfgreload", "cfgreloadx", "probe":
+			return rs.exec(a)
 		case "new":
 			c, e := newCR(a[1], a[2], a[3])
 			if c == nil {
